@@ -12,6 +12,8 @@ import os
 import time
 import traceback
 
+import sys
+
 import numpy as np
 
 TMULT = float(os.environ.get('VERIF_TMULT', '6'))
@@ -144,12 +146,14 @@ class Ctx:
         sig = dict(sig)
         sig['monitor'] = monitor
         sig['property'] = self.prop
+        if sys.flags.optimize:
+            sig['config'] = 'python -O'      # interpreter configuration under which the case ran (assert statements stripped)
         key = json.dumps(sig, sort_keys=True, default=str)
         self.viol_count[key] += 1
         if key not in self.viol:
             c = case if case is not None else self.case
             self.viol[key] = dict(sig=sig, detail=short(detail, 1500), case=J(c),
-                                  seed=self.seed, shard=self.shard, tier=self.tier)
+                                  seed=self.seed, shard=self.shard, tier=self.tier, config='python -O' if sys.flags.optimize else 'default')
 
     def judge(self, monitor, cond, sig, detail=None, case=None):
         if cond:
